@@ -1,4 +1,4 @@
-//@@ {"inject":"src/decoder.rs","mod":"verif_stubs_dec","raw":true,"features":"encoder","selftests":[{"name":"decoder_stub_equals_real","features":"encoder","filter":"verif_selftest_decoder_stub","for":["lzma2_reader","lzma_reader","lzip_reader","lzma2_step"]}]}
+//@@ {"inject":"src/decoder.rs","mod":"verif_stubs_dec","raw":true,"features":"encoder","selftests":[{"name":"decoder_stub_equals_real","features":"encoder","filter":"verif_selftest_decoder_stub","for":["lzma2_reader","lzma_reader","lzip_reader","lzma2_step","symbol_mirror"]}]}
 // Constructor stubs for LZMADecoder::new (DESIGN.md 1.1 rule 1).  The real constructor runs ~2000 `fill` iterations
 // in reset() which CBMC cannot get through; the stubs build the same value from array-repeat literals.
 // `verif_fresh_decoder` is field-for-field equal to the real constructor (checked natively by the selftest below on
